@@ -323,6 +323,33 @@ PROPS = {
         "level_note": "Trusted: harness/refsearch for the follow-up value and store validation; the poll-counting context.",
         "technique": "fault injection at every cancellation poll (enumerated), differential follow-up search on the same table, recorded-store validation",
     },
+    "C15": {
+        "title": "iterative deepening",
+        "run": "^TestC15_",
+        "level": "exploration",
+        "shards": 16,
+        "timeout": 600,
+        "thorough_scale": 10,
+        "thorough_timeout": 2400,
+        "rule": "C15/iterative: (root + history incl. mate-in-n, mated and stalemated roots; configuration as in C03; depth limit "
+                "1..cap or none; table off) through searchctl.Iterative.Launch and through Engine.Analyze (per-search limit or the "
+                "engine's default depth option). The root search is wrapped by a harness search.Search that announces every "
+                "iteration and can hold the goroutine before iteration k >= 2, so with the gate EVERY depth is observed and a halt is "
+                "placed exactly while iteration k is pending. Oracle: depths 1,2,3,... strictly consecutive; each reported score and "
+                "PV equal a direct fixed-depth search (separately constructed search object, fresh fork); the stream ends by itself "
+                "exactly at min(limit, first depth whose score has mate distance <= depth), never earlier, and with neither it is "
+                "still running when halted; Halt() returns depth >= 1, >= every depth reported before the call, equal to the direct "
+                "search of that depth, with moves when the root has any; Engine.Position()/Board() unchanged by the analysis. A sixth "
+                "of the cases are ungated with a real-time delay before Halt (increasing subsequence required instead of "
+                "consecutive). C15/timecontrol: TimeControl.Limits over clocks 0..24 h, moves-to-go in {-1,0,1,2,3,10,40,10000}, both "
+                "colours: 0 <= soft <= hard <= time left. Non-trivial: every iterative case (labelled by how it ended: limit / mate / "
+                "halt / halt-ungated); time-control cases with moves-to-go != 0 or < 1 s left. evaluations = cases.",
+        "assumptions": COMMON_ASSUMPTIONS + ["node counts are not compared (the property names score and PV)", "liveness is judged with a 30 s grace period"],
+        "level_text": "Exploration with a harness-owned schedule: ~3k analyses per quick run, every reported depth compared with "
+                      "a direct search and the stop/halt rules checked at generated halt points; 40k time-control parameter sets.",
+        "level_note": "Trusted: the gate wrapper (delegates to the real search), direct fixed-depth searches of the repository as the reference the property names.",
+        "technique": "property-based testing (rapid) with a gated search injected into the iterative-deepening harness (harness-owned schedule); differential against direct searches",
+    },
 }
 
 # Properties not claimed, with the reason (kept current).
